@@ -16,7 +16,7 @@ NAME = "B8"
 PROPERTY = "C08"
 RUNS = {"quick": 200, "thorough": 5000}
 RUN_WALL_CAP = 180.0
-REQUIRED_PROBES = {"quick": ["rectangular", "degenerate_row", "reps_gt_1", "quantum_bracketed", "npa1_compared", "method_repeated", "tol_given", "quantum_gap", "two_objects_same_shape"], "thorough": ["rectangular", "degenerate_row", "reps_gt_1", "reps_3", "quantum_bracketed", "npa1_compared", "method_repeated", "tol_given", "quantum_gap"]}
+REQUIRED_PROBES = {"quick": ["rectangular", "degenerate_row", "reps_gt_1", "quantum_bracketed", "npa1_compared", "method_repeated", "tol_given", "quantum_gap", "two_objects_same_shape", "disconnected_question_graph"], "thorough": ["rectangular", "degenerate_row", "reps_gt_1", "reps_3", "quantum_bracketed", "npa1_compared", "method_repeated", "tol_given", "quantum_gap"]}
 COMPONENTS = {"real": ["toqito.nonlocal_games.XORGame (constructor, quantum_value, classical_value, nonsignaling_value, to_nonlocal_game)", "NonlocalGame.classical_value / nonsignaling_value / commuting_measurement_value_upper_bound(1)", "toqito.helper.npa_constraints", "cvxpy + SCS/Clarabel"], "stub": []}
 RULE = ("one run = one XORGame object (1..5 x 1..5 questions, rectangular, zero rows/columns, uniform / skewed distributions, reps 1..3 where the product game stays small, tol given or defaulted) and 3..6 "
         "value-method calls in seeded order with repetition; reference = rigorous bracket [bias of explicit unit vectors, dual-feasible certificate] from own SDPs, +/-1 enumeration, LP; "
@@ -58,6 +58,32 @@ def draw_game(st, like=None):
             prob[0, 0] = 1.0
         prob = prob / prob.sum()
     pred = (rng.random((q0, q1)) < 0.5).astype(int)
+    if like is None and q0 >= 3 and q1 >= 3 and st.draw(3) == 0:
+        # disconnected question graph: the support of the distribution splits into components, one of
+        # them perfectly satisfiable (f = s_x xor t_y), another one frustrated (a CHSH-like 2x2 block)
+        qk = "components"
+        sat_first = bool(st.draw(2))
+        r_sat = list(range(0, q0 - 2)) if sat_first else list(range(2, q0))
+        c_sat = list(range(0, q1 - 2)) if sat_first else list(range(2, q1))
+        r_fr = [q0 - 2, q0 - 1] if sat_first else [0, 1]
+        c_fr = [q1 - 2, q1 - 1] if sat_first else [0, 1]
+        prob = np.zeros((q0, q1))
+        pred = np.zeros((q0, q1), dtype=int)
+        s_bits, t_bits = rng.integers(0, 2, size=q0), rng.integers(0, 2, size=q1)
+        for x in r_sat:
+            for y in c_sat:
+                if rng.random() < 0.7 or (x == r_sat[0] and y == c_sat[0]):
+                    prob[x, y] = rng.random() + 0.05
+                    pred[x, y] = s_bits[x] ^ t_bits[y]
+        for i, x in enumerate(r_fr):
+            for j, y in enumerate(c_fr):
+                prob[x, y] = rng.random() + 0.2
+                pred[x, y] = (i & j) ^ int(s_bits[x] ^ t_bits[y])
+        w = 0.1 + 0.8 * rng.random()
+        sat_mass = prob[np.ix_(r_sat, c_sat)].sum()
+        fr_mass = prob[np.ix_(r_fr, c_fr)].sum()
+        prob[np.ix_(r_sat, c_sat)] *= w / sat_mass
+        prob[np.ix_(r_fr, c_fr)] *= (1 - w) / fr_mass
     reps = st.weighted([(1, 6), (2, 3), (3, 2)])
     return prob, pred, reps, {"shape": [q0, q1], "prob_kind": qk, "reps": reps}
 
@@ -81,6 +107,8 @@ def run(cs, tier, run_index):
         res.probe("reps_3")
     if tol_given:
         res.probe("tol_given")
+    if meta["prob_kind"] == "components":
+        res.probe("disconnected_question_graph")
 
     def build():
         p, f = prob.copy(), pred.copy()
